@@ -5,6 +5,7 @@ import (
 	"errors"
 
 	"github.com/jackc/pgx/v5/pgtype"
+	"github.com/jeroenrinzema/psql-wire/pkg/buffer"
 )
 
 // vKV builds the parameter area of a startup packet.
@@ -435,6 +436,11 @@ func VerifH19() {
 			return nil
 		}))
 	}
+	customCaches := nondetBool() // configuration: user-supplied statement and portal caches
+	if customCaches {
+		opts = append(opts, Statements(func() StatementCache { return &vStmtCache{m: map[string]*Statement{}} }),
+			Portals(func() PortalCache { return &vPortalCache{m: map[string]*Portal{}} }))
+	}
 	srv, err := NewServer(w.parse, opts...)
 	vAssert("newserver-ok", err == nil)
 
@@ -523,6 +529,34 @@ func VerifH19() {
 	if m == 2 {
 		vReach("two-middlewares")
 	}
+	if customCaches && w.countEvents('x') > 0 {
+		vReach("custom-caches-executed")
+	}
+}
+
+// user-supplied caches (the Statements / Portals options): the simplest
+// implementations a user would write against the exported interfaces
+type vStmtCache struct{ m map[string]*Statement }
+
+func (c *vStmtCache) Set(ctx context.Context, name string, stmt *PreparedStatement) error {
+	c.m[name] = &Statement{fn: stmt.fn, parameters: stmt.parameters, columns: stmt.columns}
+	return nil
+}
+func (c *vStmtCache) Get(ctx context.Context, name string) (*Statement, error) { return c.m[name], nil }
+
+type vPortalCache struct{ m map[string]*Portal }
+
+func (c *vPortalCache) Bind(ctx context.Context, name string, stmt *Statement, params []Parameter, formats []FormatCode) error {
+	c.m[name] = &Portal{statement: stmt, parameters: params, formats: formats}
+	return nil
+}
+func (c *vPortalCache) Get(ctx context.Context, name string) (*Portal, error) { return c.m[name], nil }
+func (c *vPortalCache) Execute(ctx context.Context, name string, reader *buffer.Reader, writer *buffer.Writer) error {
+	p := c.m[name]
+	if p == nil {
+		return NewErrUnkownStatement(name)
+	}
+	return p.statement.fn(ctx, NewDataWriter(ctx, p.statement.columns, p.formats, reader, writer), p.parameters)
 }
 
 // H19x — exactly one Terminate: the hook runs exactly once and the
@@ -551,5 +585,99 @@ func VerifH19x() {
 		vReach("hook")
 	} else {
 		vReach("no-hook")
+	}
+}
+
+// ---------------------------------------------------------------------------
+// H12c — the transport starts failing during the startup reply (C12, C04):
+// every Write from the k-th on fails. The startup sequence contains no user
+// code between its writes, so the first failed write must end it: no further
+// write is attempted, no callback runs, serve returns the error and the
+// connection is closed.
+// ---------------------------------------------------------------------------
+func VerifH12c() {
+	k := vChoose(vParam("WRITES", 7))
+	withAuth := nondetBool()
+	mw := 0
+	w := &vWorld{parseMenu: 2, execMenu: 2}
+	opts := []OptionFn{MessageBufferSize(64),
+		SessionMiddleware(func(ctx context.Context) (context.Context, error) { mw++; return ctx, nil })}
+	if withAuth {
+		opts = append(opts, SessionAuthStrategy(ClearTextPassword(func(ctx context.Context, db, user, pw string) (context.Context, bool, error) {
+			return ctx, true, nil
+		})))
+	}
+	srv, err := NewServer(w.parse, opts...)
+	vAssert("newserver-ok", err == nil)
+	input := vStartup(vKV([]byte("user"), []byte("u")))
+	if withAuth {
+		input = vCat(input, vMsgBytes('p', vCStr([]byte("x"))))
+	}
+	input = vCat(input, vMsgBytes('Q', vCStr([]byte("q"))))
+	conn := vNewConn(input)
+	conn.failWriteAt = k
+	serr := srv.serve(context.Background(), conn)
+	startupWrites := 6 // R, 4 x S, Z (no configured parameters, no version)
+	if withAuth {
+		startupWrites = 7
+	}
+	if k < startupWrites {
+		vAssert("startup-write-failure-ends-serve", serr != nil)
+		vAssert("startup-write-failure-no-further-write", conn.writesAfterFailure == 0)
+		vAssert("startup-write-failure-no-command-callback", len(w.events) == 0)
+		if k < startupWrites-1 {
+			vAssert("startup-write-failure-no-middleware", mw == 0)
+		}
+		vAssert("closed", conn.closed >= 1)
+		if k == 0 {
+			vReach("first-write-fails")
+		}
+		if withAuth && k == 1 {
+			vReach("auth-ok-write-fails")
+		}
+	}
+}
+
+// H19e — the extended-query path end to end (Parse, Bind, Execute, Sync) with
+// default or user-supplied caches: the statement function's context carries
+// the session values and is cancelled once the Execute command has ended.
+func VerifH19e() {
+	customCaches := nondetBool()
+	w := &vWorld{parseMenu: -2, execMenu: 1}
+	opts := []OptionFn{MessageBufferSize(64),
+		SessionMiddleware(func(ctx context.Context) (context.Context, error) {
+			return context.WithValue(ctx, vKey(7), 7), nil
+		})}
+	if customCaches {
+		opts = append(opts, Statements(func() StatementCache { return &vStmtCache{m: map[string]*Statement{}} }),
+			Portals(func() PortalCache { return &vPortalCache{m: map[string]*Portal{}} }))
+	}
+	srv, err := NewServer(w.parse, opts...)
+	vAssert("newserver-ok", err == nil)
+	input := vCat(vStartup(vKV([]byte("user"), []byte("u"))),
+		vMsgBytes('P', vCat(vCStr(nil), vCStr([]byte("q")), vU16(0))),
+		vMsgBytes('B', vCat(vCStr(nil), vCStr(nil), vU16(0), vU16(0), vU16(0))),
+		vMsgBytes('E', vCat(vCStr(nil), vU32(0))),
+		vMsgBytes('S', nil))
+	conn := vNewConn(input)
+	srv.serve(context.Background(), conn) //nolint
+	execs := 0
+	for _, e := range w.events {
+		if e.kind != 'x' && e.kind != 'p' {
+			continue
+		}
+		if e.kind == 'x' {
+			execs++
+		}
+		v, ok := e.ctx.Value(vKey(7)).(int)
+		vAssert("callback-context-carries-session-values", ok && v == 7)
+		vAssert("command-context-cancelled-when-command-ends", e.ctx.Err() != nil)
+	}
+	vAssert("statement-executed-once", execs == 1)
+	vAssert("replies", vCount(vTypes(conn.out), 'C') == 1 && vWireOK(conn.out))
+	if customCaches {
+		vReach("custom-caches")
+	} else {
+		vReach("default-caches")
 	}
 }
